@@ -1,5 +1,7 @@
 (* C18 — Commitments open only to what was committed.  Property theorems only; proofs
-   are in proofs/Commit_proofs.v, the executable model in model/Commit.v.
+   are in proofs/Commit_proofs.v, the executable model in model/Commit.v; the hashcom
+   framing (hash key, bytes written, sizes) is gen/Hashcom.v, regenerated from
+   pkg/commitments/hashcom/{hashcom,key}.go on every run.
    Idealisations (section hypotheses, visible below): the keyed hash / the XOF are
    injective in their inputs; a group element of unknown discrete log is the
    independent variable X of linear forms over Z_q; encryption is injective. *)
@@ -10,8 +12,8 @@ Require Import V.model.Commit V.proofs.Commit_proofs.
 
 (* ---- hashcom ---- *)
 
-Theorem C18_concat_fixed_suffix_injective : forall (m1 w1 m2 w2 : bytes),
-  length w1 = length w2 -> hashcom_input m1 w1 = hashcom_input m2 w2 -> m1 = m2 /\ w1 = w2.
+Theorem C18_concat_fixed_suffix_injective : forall (k m1 w1 m2 w2 : bytes),
+  length w1 = length w2 -> hashcom_input k m1 w1 = hashcom_input k m2 w2 -> m1 = m2 /\ w1 = w2.
 Proof. exact concat_fixed_suffix_injective. Qed.
 Print Assumptions C18_concat_fixed_suffix_injective.
 
@@ -52,6 +54,20 @@ Theorem C18_pedersen_changed_commitment_fails : forall q k m r c',
   lf_norm q c' <> ped_commit q k m r -> ped_open q k c' m r = false.
 Proof. exact ped_changed_commitment_fails. Qed.
 Print Assumptions C18_pedersen_changed_commitment_fails.
+
+(* the key changed on its own (q prime): a changed h opens only for the zero witness,
+   a changed g only for the zero message *)
+Theorem C18_pedersen_changed_h_fails : forall q g h h' m r,
+  Znumtheory.prime q -> lf_norm q h' <> lf_norm q h -> (r mod q <> 0)%Z ->
+  ped_open q {| pk_g := g; pk_h := h' |} (ped_commit q {| pk_g := g; pk_h := h |} m r) m r = false.
+Proof. exact ped_changed_h_fails. Qed.
+Print Assumptions C18_pedersen_changed_h_fails.
+
+Theorem C18_pedersen_changed_g_fails : forall q g g' h m r,
+  Znumtheory.prime q -> lf_norm q g' <> lf_norm q g -> (m mod q <> 0)%Z ->
+  ped_open q {| pk_g := g'; pk_h := h |} (ped_commit q {| pk_g := g; pk_h := h |} m r) m r = false.
+Proof. exact ped_changed_g_fails. Qed.
+Print Assumptions C18_pedersen_changed_g_fails.
 
 Theorem C18_trapdoor_equivocates : forall q t m r m' r',
   (1 < q)%Z ->
@@ -178,6 +194,12 @@ Theorem C18_elgamal_open_iff : forall q x mu r mu' r',
   eg_open q x (eg_enc q x mu r) mu' r' = true <-> (mu' mod q = mu mod q /\ r' mod q = r mod q)%Z.
 Proof. exact eg_open_iff. Qed.
 Print Assumptions C18_elgamal_open_iff.
+
+Theorem C18_elgamal_changed_key_fails : forall q x x' mu r,
+  Znumtheory.prime q -> (x' mod q <> x mod q)%Z -> (r mod q <> 0)%Z ->
+  eg_open q x' (eg_enc q x mu r) mu r = false.
+Proof. exact eg_changed_key_fails. Qed.
+Print Assumptions C18_elgamal_changed_key_fails.
 
 Theorem C18_elgamal_program_tracked : forall q x ops,
   Forall (tracked (eg_scheme q x)) (hrun (eg_scheme q x) ops).
